@@ -1,6 +1,9 @@
 use std::hash::Hash;
 use std::sync::Arc;
+#[cfg(not(cached_verif))]
 use std::thread;
+#[cfg(cached_verif)]
+use shuttle::thread;
 use std::time::Duration;
 
 use crossbeam_channel::Receiver;
